@@ -114,8 +114,8 @@ func modMathMod(ctx *Ctx, buf *any, val any, args []any) (err error) {
 	return
 }
 
-func modMathSqrt(ctx *Ctx, buf *any, val any, _ []any) (err error) {
-	f, ok := floatConv(val)
+func modMathSqrt(ctx *Ctx, buf *any, val any, args []any) (err error) {
+	f, ok := floatConvAny(val, args)
 	if !ok {
 		return
 	}
@@ -125,8 +125,8 @@ func modMathSqrt(ctx *Ctx, buf *any, val any, _ []any) (err error) {
 	return
 }
 
-func modMathCbrt(ctx *Ctx, buf *any, val any, _ []any) (err error) {
-	f, ok := floatConv(val)
+func modMathCbrt(ctx *Ctx, buf *any, val any, args []any) (err error) {
+	f, ok := floatConvAny(val, args)
 	if !ok {
 		return
 	}
@@ -166,8 +166,8 @@ func modMathRadical(ctx *Ctx, buf *any, val any, args []any) (err error) {
 	return
 }
 
-func modMathExp(ctx *Ctx, buf *any, val any, _ []any) (err error) {
-	f, ok := floatConv(val)
+func modMathExp(ctx *Ctx, buf *any, val any, args []any) (err error) {
+	f, ok := floatConvAny(val, args)
 	if !ok {
 		return
 	}
@@ -177,8 +177,8 @@ func modMathExp(ctx *Ctx, buf *any, val any, _ []any) (err error) {
 	return
 }
 
-func modMathLog(ctx *Ctx, buf *any, val any, _ []any) (err error) {
-	f, ok := floatConv(val)
+func modMathLog(ctx *Ctx, buf *any, val any, args []any) (err error) {
+	f, ok := floatConvAny(val, args)
 	if !ok {
 		return
 	}
